@@ -368,6 +368,14 @@ THEOREMS = {
             "JP.C17.parse_zero", "JP.C17.round_nearest_all", "JP.C17.parse_nearest",
             "JP.C17.round_exact",
         ],
+        # the shortest-digits search never gives up (closes `searchFails`; lemmas JP/Lemmas/FloatTotal*.lean)
+        "JP.Props.C17floatTotal": [
+            "JP.C17.search_total", "JP.C17.float_encode_none_iff'", "JP.C17.float_encode_total",
+            "JP.C17.format_total", "JP.C17.round_of_close", "JP.C17.decPoint_low",
+            "JP.C17.max_digits_candidate", "JP.C17.round_value_only", "JP.C17.round_scale",
+            "JP.C17.layout_reads_back", "JP.C17.store_wf", "JP.C17.legacy_normNum_none_iff",
+            "JP.C17.legacy_encNum_total",
+        ],
         "JP.Props.C17typeddec": [
             "JP.C17.typeddec_agrees_untyped", "JP.C17.typeddec_no_panic_untyped", "JP.C17.typeddec_panic_on_unsettable_pointer",
             "JP.C17.typeddec_result_typed", "JP.C17.typeddec_unknown_members_ignored", "JP.C17.typeddec_exact_before_fold",
@@ -452,11 +460,11 @@ OPEN = {
     "C16": [],
     "C17": ["foreign MarshalJSON/MarshalText methods and recursive types: differential testing against encoding/json only; the ENCODER and the DECODER on typed values / targets — structs, tags, embedding, maps, slices, arrays, pointers — are modelled (JP/Codec/Typed.lean, stream `typed`, JP.Props.C17typed; JP/Codec/TypedDecode.lean + TypedFold.lean, stream `typeddec`, JP.Props.C17typeddec)",
             "typed DECODER: open: typeddec_no_panic_no_fuel on ALL decodable types (proved for the library's own target shapes: typeddec_no_panic_untyped; a TAGGED embedded pointer to an unexported struct makes the real decoder and encoding/json panic in reflect.Value.Set: outside the theorem's domain), the struct-member theorems are stated per member (memberStep / findField / literalStore), not over the parse tree, typeddec_roundtripGoal (its unrestricted form is refuted: typeddec_roundtrip_unrestricted_false); errorContext (Struct/Field of the message) and Decoder.DisallowUnknownFields are not modelled; float-kinded fields are outside GoType (floats are modelled separately: JP/Codec/Float.lean)",
-            "floats (JP/Codec/Float.lean, stream `float`, JP.Props.C17float): the shortest-digits search checks its own answer, so the round trip is proved by construction; that the search never gives up (17 / 9 digits always suffice) is NOT proved — `searchFails` is decidable and evaluated on every generated value (never true); that the chosen digits are the CLOSEST shortest ones (Go's tie rule: even last digit) is validated by the correspondence only; `parseFloat` is proved to be `roundRat` on the exact fraction for every literal (shortcuts for astronomic exponents included) and `roundRat` to round to the nearest integer significand (ties to even) at the exponent of the value's binade (round_nearest_even); and that result is nearest to the value among ALL finite floats of the format (round_nearest_all, parse_nearest); not proved: monotonicity, and that an overflow answer is given ONLY above the largest finite float plus half an ulp (the exponent condition is in round_nearest_even); format_exact_nat is proved for n < 10^15 (not up to 2^53 / 10^21); literals with more than 800 significant INTEGER digits are outside the model's domain (`withinGoDigits`): there strconv.ParseFloat itself is not correctly rounded (\"1\" + 800 zeros + \"e-800\" reads as 0.1 in the fork and in encoding/json alike); float fields inside typed values (stream `typed`) are still not generated",
+            "floats (JP/Codec/Float.lean, stream `float`, JP.Props.C17float): the shortest-digits search checks its own answer, so the round trip is proved by construction; that the search never gives up (17 / 9 digits always suffice, the bytes laid out are read back) IS proved (JP.Props.C17floatTotal: search_total, float_encode_none_iff' — `searchFails` is still evaluated on every generated value); that the chosen digits are the CLOSEST shortest ones (Go's tie rule: even last digit) is validated by the correspondence only; `parseFloat` is proved to be `roundRat` on the exact fraction for every literal (shortcuts for astronomic exponents included) and `roundRat` to round to the nearest integer significand (ties to even) at the exponent of the value's binade (round_nearest_even); and that result is nearest to the value among ALL finite floats of the format (round_nearest_all, parse_nearest); not proved: monotonicity, and that an overflow answer is given ONLY above the largest finite float plus half an ulp (the exponent condition is in round_nearest_even); format_exact_nat is proved for n < 10^15 (not up to 2^53 / 10^21); literals with more than 800 significant INTEGER digits are outside the model's domain (`withinGoDigits`): there strconv.ParseFloat itself is not correctly rounded (\"1\" + 800 zeros + \"e-800\" reads as 0.1 in the fork and in encoding/json alike); float fields inside typed values (stream `typed`) are still not generated",
             "typed_escape_irrelevantGoal (equal values under both EscapeHTML settings) is refuted for `,string` fields of kind string (JP.C17.typed_escape_irrelevant_counterexample: the standard library's own behaviour); proved up to the relation escRel",
             "Decoder/Encoder streams are modelled (JP/Codec/Stream.lean) for the decoder model's target types and the encoder model's value shapes; refill's chunking is abstracted (checked by differential runs through five chunkings), messages/offsets of stream-level errors are not modelled; Encode with a NON-EMPTY prefix: the bytes are the modelled Indent (compared differentially), parse-back is proved for the empty prefix only; `syntaxStickyEveryCallGoal` is false in the real code and in encoding/json (Token/More ignore dec.err): proved for every later Decode",
             "the unchecked entry points (UnmarshalValid*) on ILL-FORMED texts: model validated by testing only (the library never calls them behind a failed Valid gate)"],
-    "C19": ["CreateMergePatch is modelled for ALL numbers (Legacy.createMergePatchF on JP/Codec/Float.lean; compared with the Go code on every case) and proved for C19's quantifier (numbers spelled the way Go prints a float64, `createCanonical`): on literals without `-0` (create_*_float; negZero_*_counterexample), and with `-0` up to float equality (create_upToZero_float = the run-time predicate Legacy.c19create). Outside canonical spellings (1.0, 1e2, ...) the model is validated by the correspondence only; that `floatEncode` never answers the defensive `none` on a finite float is not proved (`encNum` keeps the literal then)"],
+    "C19": ["CreateMergePatch is modelled for ALL numbers (Legacy.createMergePatchF on JP/Codec/Float.lean; compared with the Go code on every case) and proved for C19's quantifier (numbers spelled the way Go prints a float64, `createCanonical`): on literals without `-0` (create_*_float; negZero_*_counterexample), and with `-0` up to float equality (create_upToZero_float = the run-time predicate Legacy.c19create). Outside canonical spellings (1.0, 1e2, ...) the model is validated by the correspondence only; that `floatEncode` never answers the defensive `none` on a finite float is proved (JP.C17.legacy_encNum_total, search_total)"],
     "C20": ["go-flags, OS, process exit: observed only"],
 }
 ASSUME = {
